@@ -20,6 +20,9 @@ func newEnumWriter(w *writer) *enumWriter {
 }
 
 func (w *enumWriter) enum(def *model.Definition) error {
+	if err := checkEnumNames(def); err != nil {
+		return err
+	}
 	if err := w.def(def); err != nil {
 		return err
 	}
@@ -109,6 +112,20 @@ func (w *enumWriter) string_method(def *model.Definition) error {
 	w.line(`return ""`)
 	w.line("}")
 	w.line()
+	return nil
+}
+
+// checkEnumNames returns an error when two enum values get the same Go name, i.e. "foo_bar" and "FOO_BAR".
+func checkEnumNames(def *model.Definition) error {
+	names := make(map[string]string)
+	for _, val := range def.Enum.Values {
+		name := enumValueName(val)
+		if other, ok := names[name]; ok {
+			return fmt.Errorf("%v.%v: generated Go name %q collides with the enum value %q",
+				def.Name, val.Name, name, other)
+		}
+		names[name] = val.Name
+	}
 	return nil
 }
 
